@@ -5,7 +5,7 @@
    raised nothing and ended in state [st]; [s_log st] is everything it asked of the Tiled client.
    All theorems hold for every batch size bs : Z (0 and negative included) and every run length. *)
 From Coq Require Import String Permutation.
-From BV Require Import Base.Prelude Pure.TiledBatch Proofs.TiledBatch.
+From BV Require Import Base.Prelude Pure.TiledBatch Proofs.TiledBatch Proofs.TiledPairs.
 
 (* (i) internal tables: per stream name n the appended partitions, concatenated in log order, are exactly
    the rows of the events of stream n in arrival order (row = seq_num, time, data, ts_* as the code builds
@@ -68,11 +68,12 @@ Theorem C46_metadata : forall bs s body m st,
 Proof. exact metadata_thm. Qed.
 Print Assumptions C46_metadata.
 
-(* "one array per external data key", the part that holds for every accepted run (no hypothesis on ranges):
+(* "one array per external data key", the part that holds for every accepted run (no hypothesis at all on
+   the documents; the per-pair statement is C46_one_array_per_pair below):
    array nodes are pairwise distinct, one per consolidator, the consolidator of full data key cid sits on
    node c_node/c_dk with cid = "<c_node>_<c_dk>", and every consumed stream datum went to the consolidator
    its stream resource is mapped to. *)
-Theorem C46_arrays_distinct_partial : forall bs docs st,
+Theorem C46_arrays_distinct : forall bs docs st,
   run bs docs = (st, None) -> is_run docs ->
   let L := s_log st in
   NoDup (new_arrays L) /\ new_arrays L = map fst (s_cons st)
@@ -80,7 +81,7 @@ Theorem C46_arrays_distinct_partial : forall bs docs st,
   /\ (forall cid d, In (cid, d) (puts L) ->
         lookup (sd_sres d) (s_sres_nodes st) = Some cid /\ lookup cid (s_cons st) <> None).
 Proof. exact arrays_distinct_thm. Qed.
-Print Assumptions C46_arrays_distinct_partial.
+Print Assumptions C46_arrays_distinct.
 
 (* Finding a (recorded): get_sres_node keys consolidators by the STRING "<stream name>_<data_key>"; two different
    (stream name, data_key) pairs with the same string share one array.  Witness: streams "a_b" (key "c") and
@@ -108,10 +109,20 @@ Proof.
 Qed.
 Print Assumptions C46_a_refuted.
 
-(* The full statement.  Beyond the theorems above it asks that, outside finding class a and for well-formed
-   external documents (wf_ext_b), every (stream name, data_key) pair that received stream datums has its own
-   array <name>/<key> counting exactly its rows (arrays_by_pair_b).  That last conjunct is NOT proved here
-   (see manifest); everything else is. *)
+(* "One array per external data key", by (stream name, data_key) pair: outside finding class a and for
+   well-formed external documents (wf_ext_b: descriptor uids and stream resource uids declared once, every stream
+   datum names a declared descriptor and resource, the stream datums of one resource belong to one stream, no
+   stream resource uid is itself a "<name>_<key>" string of a pair), every pair that received stream datums has
+   its own consolidator / array node <name>/<key>, and that consolidator's _num_rows is exactly the number of
+   rows of the stream datums of that pair (arrays_by_pair_b, Pure/TiledBatch.v). *)
+Theorem C46_one_array_per_pair : forall bs docs st,
+  run bs docs = (st, None) -> is_run docs -> ns_disjoint docs -> sd_wf docs ->
+  wf_ext_b docs = true -> finding_C46_a_b bs docs = false ->
+  arrays_by_pair_b docs st = true.
+Proof. exact arrays_by_pair_thm. Qed.
+Print Assumptions C46_one_array_per_pair.
+
+(* The full statement, all parts together. *)
 Definition C46_full : Prop := forall bs docs st off,
   run bs docs = (st, None) -> is_run docs -> ns_disjoint docs -> sd_wf docs -> seq_aligned off docs ->
   wf_ext_b docs = true -> ~ finding_C46_a bs docs ->
@@ -119,8 +130,35 @@ Definition C46_full : Prop := forall bs docs st off,
   /\ (forall n, cache_of n (s_icache st) = [])
   /\ (forall cid, Permutation (flat_map expand_ind (puts_of cid (s_log st))) (flat_map expand_ind (received_for cid st docs)))
   /\ (forall cid, Permutation (flat_map expand_seq (puts_of cid (s_log st))) (flat_map expand_seq (received_for cid st docs)))
-  /\ metadata_b docs st = true
+  /\ (exists s body m mid,
+        docs = DStart s :: body ++ [DStop m]
+        /\ s_log st = LCreateRoot (st_uid s) (trunc_md (("uid"%string, VS (st_uid s)) :: st_md s)) (st_tags s)
+                      :: mid ++ [LUpdateRoot (trunc_md (("uid"%string, VS (st_uid s)) :: st_md s)) m]
+        /\ root_updates mid = [] /\ existsb is_create_root mid = false)
   /\ arrays_by_pair_b docs st = true.
+
+Theorem C46_full_thm : C46_full.
+Proof. exact full_thm. Qed.
+Print Assumptions C46_full_thm.
+
+(* the last clause of wf_ext_b is needed: a stream resource whose uid is "primary_img" makes the array of
+   (primary, img) disappear into the one of (baseline, img) (same behaviour in the real code; corpus) *)
+Example C46_sres_uid_hypothesis_needed : exists bs docs st,
+  run bs docs = (st, None) /\ is_run docs /\ ns_disjoint docs /\ sd_wf docs /\ finding_C46_a_b bs docs = false
+  /\ sf_disjoint_b docs = false /\ arrays_by_pair_b docs st = false.
+Proof.
+  exists 1%Z,
+    [ DStart (mkStart "run-1" [] None);
+      DDescriptor (mkDesc "dP" "primary" 1001 [("img"%string, 2%Z)] None);
+      DDescriptor (mkDesc "dB" "baseline" 1001 [("img"%string, 1%Z)] None);
+      DSres (mkSR "primary_img" "img" "/a"); DSres (mkSR "sr1" "img" "/a");
+      DSdatum (mkSD "sd1" "primary_img" "dB" 0 1 1 2); DSdatum (mkSD "sd2" "sr1" "dP" 0 2 1 3);
+      DStop [] ].
+  eexists. split; [vm_compute; reflexivity|]. split; [apply is_run_b_sound; vm_compute; reflexivity|].
+  split; [apply ns_disjoint_b_sound; vm_compute; reflexivity|].
+  split; [apply sd_wf_b_sound; vm_compute; reflexivity|].
+  repeat split; vm_compute; reflexivity.
+Qed.
 
 (* The hypotheses are met by a concrete run: two streams, event pages, a configuration update, two stream
    resources for one data key, stream datums arriving out of order and merged ([1,2) then [0,1) -> [0,2)),
